@@ -107,7 +107,7 @@ func (t *c01Tracer) trace(ctx *c01Ctx, e ast.Expr, resIdx int, delta bool, out *
 		if o == nil {
 			return
 		}
-		key := fmt.Sprintf("%p/%p/%v", o, ctx.call, delta)
+		key := fmt.Sprintf("%p/%p/%v/%d", o, ctx.call, delta, x.Pos())
 		if seen[key] {
 			return
 		}
@@ -149,7 +149,7 @@ func (t *c01Tracer) trace(ctx *c01Ctx, e ast.Expr, resIdx int, delta bool, out *
 			return
 		}
 		// local: all definitions in fi
-		for _, d := range c01Defs(info, fi.Decl.Body, o) {
+		for _, d := range c01ReachingDefs(c01FnOf(t.cm.p, fi).innermost(x), o, x.Pos()) {
 			switch d.tok {
 			case token.RANGE:
 				if rs, ok := d.stmt.(*ast.RangeStmt); ok {
